@@ -239,6 +239,18 @@ GenFaults(s) ==
                    r \in {sh.sp, "a03"}}
            : sh \in {x \in Rng(s.shards) : x.status = SCompleted /\ HasOrder(s, x.order) /\ x.id % 2 = s.h % 2}}
 
+\* fault: one or two stored models; reports and recovery declarations by the fishman (a03), an ordinary node (a01) and the
+\* accused, about matching and mismatching shard / commit / data ids; time jumps to the next penalty round (every 600
+\* blocks) and across expiry. C19 on every step.
+FaultEvents(s) ==
+    (IF s.oc <= 2 THEN
+        {[E0 EXCEPT !.kind = "Store", !.creator = Gateway, !.provider = Gateway, !.gw = Gateway, !.owner = "d1", !.signer = "d1",
+                    !.data = d, !.commit = d, !.cseg = <<d>>, !.op = 1, !.dur = 3600, !.replica = 1, !.timeout = 1800, !.size = 1000,
+                    !.alias = "al" \o d] : d \in {x \in {"D1", "D2"} : ~HasMeta(s, x)}}
+     ELSE {})
+    \cup Completes(s) \cup GenFaults(s)
+    \cup {[E0 EXCEPT !.kind = "Blocks", !.n = n] : n \in {1, 600 - (s.h % 600), 3601}}
+
 \* timeout: fault-sequence nondeterminism. One or two orders are handed to providers; each assigned provider either
 \* completes or stays silent at each attempt; time only moves from one scheduled height to the next.  Every formula
 \* (C12_Rescheduled, C12_ResolvedByBound, C12_ReplicasAccounted, C05_Timeout*, C04 conservation ...) holds on every path:
@@ -261,6 +273,7 @@ Events(s) ==
       [] Family = "auth"   -> AuthEvents(s)
       [] Family = "sidauth" -> SidAuthEvents(s)
       [] Family = "sponsor" -> SponsorEvents(s)
+      [] Family = "fault"   -> FaultEvents(s)
       [] Family = "gen" -> GStoreNew(s) \cup GStoreUpd(s) \cup GCompletes(s) \cup GCancels(s) \cup GSigned(s)
                            \cup Migrates(s) \cup Claims(s) \cup GBlocks(s) \cup GenDid(s) \cup GenStaking(s) \cup GenFaults(s)
       [] Family = "pay" -> StoreNew(s) \cup StoreUpd(s) \cup Completes(s) \cup Cancels(s) \cup Terminates(s) \cup Renews(s)
